@@ -222,4 +222,18 @@ theorem C03_source_meta_slots : DEvo.Generated.metaSlots =
     ["unique_together: unique_together", "indexes: model_meta_indexes",
      "unique_together: unique_together", "indexes: model_meta_indexes"] := by decide
 
+/-- the roll-up hands on every initial value that is SET - the model goes by `some`/`none`, never by the
+value: a `ChangeField` with initial `0`, `''` or `False` passes it to the mutation it is folded into -/
+theorem C03_rollup_keeps_set_initial (m f m' f' : String) (sft : Option String) (v : Val)
+    (sattrs attrs : List (String × Val)) (ft : String) (init : Option Val) :
+    copyChangeAttrs (.changeField m' f' sft (some v) sattrs) (.addField m f ft init attrs) =
+      .addField m f (sft.getD ft) (some v) (dUpdate attrs sattrs) := by
+  cases sft <;> simp [copyChangeAttrs]
+
+/-- ... which is how the source decides, too: `is not None` (read by the translator on every run) -/
+theorem C03_source_copy_change_attrs : DEvo.Generated.copyChangeAttrsBody =
+    ["dest_mutation.field_attrs.update(source_mutation.field_attrs)",
+     "if source_mutation.field_type is not None: ;     dest_mutation.field_type = source_mutation.field_type",
+     "if source_mutation.initial is not None: ;     dest_mutation.initial = source_mutation.initial"] := by decide
+
 end DEvo.Props.C03
